@@ -22,9 +22,18 @@ func WithImporter(importer importer.Importer) Option {
 	}
 }
 
-// WithGlobals provides global variables with the given names.
+// WithGlobals provides global variables with the given names. The globals
+// given with one set of options (to New, or to one RunCode) are together the
+// globals of the VM from then on: they replace the ones it had, so that a
+// name that a later invocation no longer supplies is no longer there.
 func WithGlobals(globals map[string]any) Option {
 	return func(vm *VirtualMachine) {
+		if !vm.globalsGiven {
+			// The first WithGlobals of this set of options starts afresh;
+			// further ones add to it
+			vm.inputGlobals = make(map[string]any, len(globals))
+			vm.globalsGiven = true
+		}
 		for name, value := range globals {
 			vm.inputGlobals[name] = value
 		}
